@@ -36,6 +36,7 @@ def run(repo: Repo, tier: str, res: CheckResult, seed: int = 0) -> None:
     shape_provider_list(repo, res)
     from .. import genprog
     genprog.c17_checks(repo, tier, res, seed)
+    shared_kind_audits(repo, tier, res, seed)
     res.assumptions = list(ASSUMPTIONS)
 
 
@@ -85,3 +86,44 @@ def shape_provider_list(repo: Repo, res: CheckResult) -> None:
         res.add(Finding("C17", "SHAPE.introspectors", m.rel, "BUILTIN_SHAPE_PROVIDER", ", ".join(order),
                         "__init__ introspection must be the last resort: placed earlier it shadows the introspector of a "
                         "supported kind and the model is loaded by its raw __init__ signature", val.lineno))
+
+
+def shared_kind_audits(repo: Repo, tier: str, res: CheckResult, seed: int) -> None:
+    """Three places where the kinds meet code that only SOME of them exercise (audits other properties own, reported here as
+    uniformity clauses): (a) the generated model codec is memoised per retort -- its key must contain the shape, or twin models
+    of different kinds that share module, name and field codecs share one loader (the TypedDict twin is loaded as the
+    dataclass); (b) optional OUTPUT fields exist only for TypedDict (NotRequired keys): the dumper fragment for them must
+    write every present value, None included, like the other kinds write their fields; (c) an optional INPUT key that comes
+    first in the crown (TypedDict sorts its keys, keyword-only defaults may be declared first) must report a non-mapping datum
+    with the same TypeLoadError the other kinds give, not with whatever `key in data` raises."""
+    from ..values import Resolver
+    from .. import genprog
+    from . import c11
+    sub = CheckResult("C11")
+    c11.cached_call_sites(repo, Resolver(repo), sub)
+    res.evaluated("kinds:codec-memo-key-has-shape", True)
+    for f in sub.findings:
+        if f.rule == "KEY.always-equal" and "/morphing/model/" in f.file:
+            res.add(Finding("C17", "KIND.codec-memo-ignores-shape", f.file, f.qualname, f.construct,
+                            "the memo key of the generated model codec leaves out the shape / constructor: twin models of different "
+                            "kinds with one module-qualified name (make_dataclass, functional TypedDict / NamedTuple, attrs.make_class) "
+                            "share the codec of whichever was requested first. " + f.message[:160], f.line))
+    sub3 = CheckResult("C03")
+    genprog.c03_dumper_checks(repo, tier, sub3, seed, prop="C03")
+    res.evaluated("kinds:optional-output-fields-written", True)
+    for f in sub3.findings:
+        if f.rule == "TV.field-write-path" and "optional" in f.qualname:
+            res.add(Finding("C17", "KIND.optional-output-field-dropped", f.file, f.qualname, f.construct,
+                            "optional output fields exist only for TypedDict (NotRequired keys): the fragment that writes them drops or "
+                            "misplaces a present value (a key that is present with None), while every other kind dumps the field. "
+                            + f.message[:200], f.line))
+    from ..esc import Esc
+    sub4 = CheckResult("C04")
+    genprog.c04_checks(repo, tier, sub4, Esc(repo, Resolver(repo), role="loader"), seed)
+    res.evaluated("kinds:optional-first-key-type-error", True)
+    for f in sub4.findings:
+        if f.rule == "ESC.generated-escape" and "optional" in f.qualname:
+            res.add(Finding("C17", "KIND.error-differs-by-field-order", f.file, f.qualname, f.construct,
+                            "the extraction of an optional key lets a raw exception escape for a datum that is no mapping when no "
+                            "required key was read before it: kinds that list an optional key first (TypedDict sorts its keys) answer "
+                            "TypeError where the other kinds answer TypeLoadError. " + f.message[:200], f.line))
